@@ -23,6 +23,10 @@ from pyvc.libmodel import Cvx
 from .common import Contract, register
 
 LETTERS = ['U', 'L', 'S', 'N']
+
+
+def concrete_is(v, k):
+    return sym.concrete_int(v) == k
 OPS = {'U': '<=', 'L': '>=', 'S': '==', 'N': '=='}
 
 
@@ -33,7 +37,8 @@ class Optimize(Contract):
     properties = ('C03', 'C18', 'C17')
 
     def cases(self):
-        return [dict(rows=True, bool='none'), dict(rows=True, bool='col'), dict(rows=False, bool='none'), dict(rows=True, bool='soft')]
+        return [dict(rows=True, bool='none'), dict(rows=True, bool='col'), dict(rows=False, bool='none'), dict(rows=True, bool='soft'),
+                dict(rows=True, bool='none', target='robust'), dict(rows=False, bool='none', target='robust')]
 
     def harness(self, H, case):
         n, m, R = H.int('n_vars'), H.int('n_rows'), H.int('n_maprows')
@@ -68,6 +73,13 @@ class Optimize(Contract):
         for cn, col in cols.items():
             H.protect[id(col)] = f'self.mapping[{cn}]'
         ctx['kwargs'] = dict(make_soft_problem=(case['bool'] == 'soft'))
+        if case.get('target') == 'robust':
+            # two cost samples (the list of samples is a Python list: the loop over it is unrolled)
+            smp = [H.real_arr(f'sample{k}', n) for k in range(2)]
+            for k, a in enumerate(smp):
+                H.protect[id(a)] = f'samples[{k}]'
+            ctx['samples'] = smp
+            ctx['kwargs'].update(target='robust', samples=smp)
         return ctx
 
     def callees(self, case, ctx=None):
@@ -108,10 +120,31 @@ class Optimize(Contract):
             return
         yield ('C03.translate.all_variables', z3.simplify(lift(x.args[0]) == lift(ctx['c'].n)))
         rest = cons[2:]
+        robust = case.get('target') == 'robust'
+        if robust:
+            # C17 (robust target): one epigraph variable, one constraint  -c_s @ x >= DCF_min  per cost sample (after all the
+            # rows of the problem), objective = the epigraph variable, reported value = value under the problem's own costs
+            ns = len(ctx['samples'])
+            rob, rest = rest[len(rest) - ns:] if len(rest) >= ns else [], rest[:max(0, len(rest) - ns)]
+            dmin = objective.args[0] if isinstance(objective, Cvx) and objective.kind == 'Maximize' else None
+            ok_d = isinstance(dmin, Cvx) and dmin.kind == 'Variable' and dmin is not x and concrete_is(dmin.args[0], 1)
+            yield ('C17.robust.objective_is_the_epigraph_variable', ok_d)
+            yield ('C17.robust.one_constraint_per_sample', len(rob) == ns)
+            i = z3.Int('i')
+            for k, (kc, smp) in enumerate(zip(rob, ctx['samples'])):
+                shape = isinstance(kc, Cvx) and kc.kind == 'constraint' and kc.args[0] == '>=' and kc.args[2] is dmin and \
+                    isinstance(kc.args[1], Cvx) and kc.args[1].kind == 'matmul' and kc.args[1].args[1] is x and isinstance(kc.args[1].args[0], Arr)
+                yield (f'C17.robust.sample{k}.bounds_the_epigraph_variable', shape)
+                if shape:
+                    cv = kc.args[1].args[0]
+                    yield (f'C17.robust.sample{k}.value_under_the_sample_costs', z3.And(lift(cv.n) == n, z3.ForAll([i], z3.Implies(
+                        z3.And(i >= 0, i < n), lift(cv.f(i)) == -smp.f(i)))))
         # objective
         ok_obj = isinstance(objective, Cvx) and objective.kind == 'Maximize' and isinstance(objective.args[0], Cvx) and \
             objective.args[0].kind == 'matmul' and objective.args[0].args[1] is x
-        if ok_obj:
+        if robust:
+            pass
+        elif ok_obj:
             cvec = objective.args[0].args[0]
             i = z3.Int('i')
             yield ('C03.objective', z3.And(lift(cvec.n) == n, z3.ForAll([i], z3.Implies(z3.And(i >= 0, i < n), lift(cvec.f(i)) == -ctx['c'].f(i)))))
@@ -189,7 +222,15 @@ class Optimize(Contract):
                 yield ('C03.result.failure_iff_not_optimal', z3.And(status != sym.strlit('optimal'), status != sym.strlit('optimal_inaccurate')))
         elif isinstance(res, Obj) and res.cls == 'Results':
             yield ('C03.result.success_iff_optimal', status == sym.strlit('optimal'))
-            yield ('C03.result.value_and_x', res.get('value') is prob.kw.get('value') and res.get('x') is x.kw.get('value'))
+            if robust:
+                xv = x.kw.get('value')
+                val = res.get('value')
+                ok_v = isinstance(xv, Arr) and res.get('x') is xv and not isinstance(val, (Havoc, type(None)))
+                yield ('C17.robust.result_x', ok_v)
+                if ok_v:
+                    yield ('C17.robust.reported_value_is_value_under_own_costs', sym.cmpop('Eq', val, sym.neg(sym.arr_sum(sym.ew(sym.s_mul, xv, ctx['c'])))))
+            else:
+                yield ('C03.result.value_and_x', res.get('value') is prob.kw.get('value') and res.get('x') is x.kw.get('value'))
             d = res.get('duals')
             if case['bool'] == 'col':
                 yield ('C03.duals.mip_none_or_by_class', d is None or hasattr(d, 'items'))
